@@ -69,7 +69,10 @@ namespace options
         void usage(std::ostream& s) const;
 
     private:
-        const parser& parser_;
+        // the parser owning this group. It's a pointer, so the parser can adjust it when moved.
+        const parser* parser_;
+
+        friend class parser;
         std::string name_;
         std::string description_;
 
